@@ -333,6 +333,12 @@ def make_time_module():
             return 0.0
         if not s.dead:
             s.time_read()
+            d = s.drift
+            if d:
+                # buggify: successive reads of the clock are strictly increasing (real clocks tick between two
+                # statements); deadlines are still computed from the discrete-event clock
+                s.nreads += 1
+                return 1000000.0 + s.now + s.nreads * d
         return 1000000.0 + s.now
     def monotonic():
         return time()
